@@ -313,6 +313,9 @@ LOCSCALE = [
     ("laplace_additive", "x = 0\ny = 1\nwhile true:\n    y = 1 {1/2} 2\n    x = Laplace(1 - y + x, 2)\nend\n", ["x", "y"]),
     ("exponential_sum", "x = 0\ny = 1\nwhile true:\n    y = 1 {1/2} 2\n    x = DistExp(1/(y + x**2 + 1))\nend\n", ["x", "y"]),
     ("laplace", "x = 0\ny = 1\nwhile true:\n    y = y + 1 {1/2} y\n    x = Laplace(c*y - x, b)\nend\n", ["x", "y"]),
+    ("laplace_scale_sum", "m = 3\nx = 0\ny = 1\nwhile true:\n    y = 1 {1/2} 2\n    x = Laplace(y + m, m + 1)\nend\n", ["x", "y"]),
+    ("laplace_scale_variable", "x = 0\ny = 1\nwhile true:\n    y = 1 {1/2} 2\n    x = Laplace(x, y + 1)\nend\n", ["x", "y"]),
+    ("normal_variance_sum", "x = 0\ny = 1\nwhile true:\n    y = 1 {1/2} 2\n    x = Normal(x, y + 3/2)\nend\n", ["x", "y"]),
     ("exponential", "x = 0\ny = 1\nwhile true:\n    y = 1 {1/2} 2\n    x = DistExp(1/y)\nend\n", ["x", "y"]),
     ("exponential2", "x = 0\ny = 1\nwhile true:\n    y = 1 {1/2} 2\n    x = DistExp(3/(y + 1))\nend\n", ["x", "y"]),
 ]
